@@ -1,5 +1,6 @@
 import GsModel.Diff.SelfTop
 import GsModel.Diff.Total
+import GsModel.Diff.Guard
 /-
   C12 — diff: a spec never differs from itself, and diff never crashes.
 
@@ -17,6 +18,10 @@ import GsModel.Diff.Total
                                 (`Type[0]`, `Items.Schema`, nil schema after `$ref` resolution, nil node) is reached —
                                 through `$ref` cycles, allOf, tuples, untyped schemas, path-level parameters.
                                 `invalid_ref_panics`, `array_without_items_panics`: both hypotheses are needed.
+                                `guard_returns`, `guard_marks`, `key_ignores_depth`: the mechanism of the recursion guard — a `$ref` that
+                                arrives at a visited location key returns at once with the state untouched, following a `$ref`
+                                marks the key, and the key depends on the first two nodes of the location only (so every
+                                location below depth 2 of one subtree shares its key: at most one `$ref` per key is followed).
                                 NOT proved: termination (“never loops”) — the model recurses on fuel; the visited-key
                                 argument that bounds the real recursion is exercised by the correspondence run only.
   * `*_repaired`              — the totality half was FALSE of the pinned code: five concrete valid documents made the
@@ -188,6 +193,23 @@ theorem sample2_valid : ∀ k, sampleSpec2.validB k = true := by
       schemaOk, Schema.children, refOk, lookup, primitiveTypeString]
 
 example : (analyse {} 50 sampleSpec sampleSpec2).isOk = true ∧ (analyse {} 50 sampleSpec2 sampleSpec).isOk = true := by decide
+
+/-! ### the recursion guard -/
+
+theorem guard_returns (cx : Ctx) (n : Nat) (loc : Loc) (s1 s2 : Schema) (st : St) (k : String)
+    (hr : s1.ref ≠ "") (hsame : checkRefChangeSchema n s1 s2 = .ok [])
+    (hk : schemaLocationKey loc = .ok k) (hv : st.visited.contains k = true) :
+    compareSchema cx (n+1) loc (some s1) (some s2) st = .ok st :=
+  Gs.Diff.guard_returns cx n loc s1 s2 st k hr hsame hk hv
+
+theorem guard_marks (cx : Ctx) (loc : Loc) (s1 s2 : Schema) (st : St) (k : String)
+    (hr : s1.ref ≠ "") (hk : schemaLocationKey loc = .ok k) (hv : st.visited.contains k = false) :
+    ∃ o1 o2 st', resolveBoth cx loc s1 s2 st = .ok (some (o1, o2, st')) ∧ st'.visited.contains k = true :=
+  Gs.Diff.guard_marks cx loc s1 s2 st k hr hk hv
+
+theorem key_ignores_depth (l : Loc) (a b : NodeSeg) (rest : List NodeSeg) (c : NodeSeg) (h : l.node = a :: b :: rest) :
+    schemaLocationKey (l.addNode c) = schemaLocationKey l :=
+  Gs.Diff.addNode_key l a b rest c h
 
 /-- the hypotheses are needed: a `$ref` to a missing definition is a nil dereference … -/
 def specDangling : Spec :=
